@@ -236,8 +236,18 @@ def _run_hypothesis(ctx, facet, n, hseed, out):
         test()
     except Violation:
         out["violations"].append(state["fail"])
-    except hypothesis.errors.Flaky as e:  # a case that fails then passes: report as harness issue
-        out["harness_errors"].append("%s: flaky: %s" % (facet.name, str(e)[:500]))
+    except hypothesis.errors.Flaky as e:
+        # The same case failed, then passed when executed again. Every oracle here is a pure function of the
+        # case (seeds are part of it; time-outs are re-run alone before they count), so the code under test
+        # answered differently for identical input: that is a violation in its own right (and exactly what a
+        # determinism property such as C08 is about), reported with the case that failed first.
+        if state["fail"] is not None:
+            f = dict(state["fail"])
+            f["message"] += " [not reproducible: the same case passed when executed again, i.e. the outcome is not a pure function of the input]"
+            f["key"] = (f.get("key") or "violation") + ":flaky"
+            out["violations"].append(f)
+        else:
+            out["harness_errors"].append("%s: flaky: %s" % (facet.name, str(e)[:500]))
     # any other exception propagates to run_task and is reported as a harness error
 
 
